@@ -65,7 +65,7 @@ def signature(run: Any) -> int:
 
 def _chunk(args: Tuple[str, int, str, int, int]) -> dict:
     modname, batch_seed, tier, lo, hi = args
-    faulthandler.dump_traceback_later(600, exit=True)
+    faulthandler.dump_traceback_later(int(os.environ.get("VERIF_WATCHDOG_S", "600")), exit=True)
     mod = load_prop(modname)
     out: Dict[str, Any] = {
         "runs": 0, "viol": [], "probes": {}, "faults": {}, "sigs": [], "steps": 0, "sim_us": 0,
